@@ -129,7 +129,9 @@ func createInits() [][]byte {
 		h("600456615b5b00"), // PUSH1 4 JUMP PUSH2 5b5b STOP: target 4 is PUSH data (invalid)
 		h("601456" + "6f" + "5b5b5b5b5b5b5b5b5b5b5b5b5b5b5b5b" + "5b00"), // PUSH1 20 JUMP PUSH16 <16 x 5b> JUMPDEST(20) STOP: far valid target
 		h("600a56" + "6f" + "5b5b5b5b5b5b5b5b5b5b5b5b5b5b5b5b" + "5b00"), // PUSH1 10 JUMP ...: target inside the PUSH16 data (invalid)
-		h("600160005500"), // no jump: SSTORE(0,1) STOP
+		h("600160005500"),                          // no jump: SSTORE(0,1) STOP
+		h("6001600055" + "616000" + "6000" + "f3"), // SSTORE(0,1); RETURN 24576 bytes: the largest code that may be deposited
+		h("6001600055" + "616001" + "6000" + "f3"), // SSTORE(0,1); RETURN 24577 bytes: one byte too large, the creation fails as a whole
 	}
 }
 
